@@ -288,6 +288,7 @@ func (fc *FnCtx) unop(st *State, x *ssa.UnOp) Val {
 		elem := x.X.Type().Underlying().(*types.Pointer).Elem()
 		var t Term
 		if a.P != nil {
+			fc.guardCheck(st, a.P, false, x)
 			t = fc.loadPtr(st, a.P)
 		} else if isStruct(elem) {
 			fc.nilCheck(st, x.X, a.T, x)
@@ -330,6 +331,9 @@ func (fc *FnCtx) store(st *State, addr, val ssa.Value) {
 	}
 	elem := addr.Type().Underlying().(*types.Pointer).Elem()
 	if a.P != nil {
+		if len(fc.Fn.Blocks) > 0 {
+			fc.guardCheck(st, a.P, true, fc.Fn.Blocks[0].Instrs[0])
+		}
 		fc.storePtr(st, a.P, v.T)
 		return
 	}
